@@ -13,6 +13,7 @@ Failure kinds (first component = what, the `bucket` tag = owner class / paramete
   nonfinite    AD contains NaN / inf while the value is finite
   stale_value  the value did not return to its initial value after the parameter was restored /
                differs between the AD evaluation and the FD base point (cache not invalidated)
+  interval_mismatch        the back-propagated gradient does not integrate to the difference of the reported values over the stencil
   backward_raises:<Type>   backward() of the returned value raises (graph corrupted by an in-place operation, ...)
   raises:<Type>@<frame>    building or evaluating the density raises (added by the runner)
 """
@@ -42,7 +43,12 @@ RULE = (
     "forced on or off; coalescent: vt.props.c08 cases (constant / exponential / skyride / skygrid / piecewise-linear; times/events form or a "
     "tree model in time / ratio / shift parameterisation; grid as list or parameter); skyline: vt.props.c09 cases (1..5 epochs, rho-sampling, "
     "survival, root edge, relative / absolute times as list or parameter, removal probability with one epoch) and BirthDeathModel; gmrf: plain / "
-    "weighted / time-aware GMRF, GMRFGammaIntegrated, ConstantCoalescentIntegratedModel; priors: CTMCScale, CompoundGammaDirichletPrior; "
+    "weighted / time-aware GMRF, GMRFGammaIntegrated, ConstantCoalescentIntegratedModel, GMRFCovariate (field, effect sizes, precision and the "
+    "design matrix as leaves); priors: CTMCScale, CompoundGammaDirichletPrior, PoissonTreeLikelihood; distributions: the Distribution wrapper "
+    "over the package's own LogNormal (mean/scale, mean/stdev), Normal (precision), InverseGamma, OneOnX and ten torch densities with every "
+    "distribution parameter a leaf (x as one Parameter or a list), BayesianBridge (exponent and regularised forms), ScaleMixtureNormal, "
+    "MultivariateNormal (scale_tril / covariance / precision, symmetric perturbations), DeterministicNormal; the soft-sorted skygrid "
+    "(temperature); exponential growth rates also drawn in 1e-6..1e-4 of either sign; "
     "jacobian: TransformedParameter() over exp / sigmoid / affine / stick-breaking chains and ReparameterizedTimeTreeModel(); joint: "
     "JointDistributionModel over likelihood + coalescent + CTMC scale + torch priors + tree and transform Jacobians sharing parameters. "
     "Internal node heights, grid points and epoch boundaries are moved apart by construction to a drawn separation delta (1e-3..3e-2 of the "
@@ -67,10 +73,20 @@ ASSUMPTIONS = [
     "(rounding errors of the value - rare one-ulp flips amplified by cancellation in P(t) for short branches - were seen to be coherent along "
     "one step sequence); label fd_not_confirmed counts the withdrawn ones",
     "influence is asserted when |g_fd| > 50 x error estimate + 1e3 x round-off floor",
+    "interval form: when the first tableau over [x-H, x+H] is inconsistent although the value is evaluated accurately (a jump or kink of the "
+    "reported value inside the stencil, or a value varying on a much shorter scale), the back-propagated directional derivative is integrated "
+    "over the interval (composite 5-point Gauss-Legendre, 1..8 panels, until the change of the last refinement is < 5% of the disagreement) and "
+    "compared with f(x+H) - f(x-H) at 1e-5 of the scale: a gradient that is the derivative of the reported value integrates to its "
+    "differences; kind interval_mismatch, labels interval_check / interval_check_open",
+    "the growth rate of the exponential coalescent keeps its sign and moves by at most 45% of its size (0 is a singular point of the shipped "
+    "formula: documented TODO); growth rates below 1e-6 in size are not generated (the formula loses its digits to cancellation there)",
+    "MultivariateNormal covariance / precision matrices are perturbed symmetrically only (torch reads one triangle and symmetrises the "
+    "gradient); scale_tril: entries above the diagonal are not differentiated",
+    "RootParameter cannot be instantiated (abstract requires_grad), PiecewiseExponentialCoalescentGridModel raises on every input (known C08): "
+    "not generated",
     "the numerical derivative re-assigns .tensor with detached tensors and calls the model again: a cache that is not invalidated shows up as "
     "stale_value or as a mismatch and is reported (it makes the reported density differ from the one that is differentiated)",
-    "GMRFCovariate, soft (temperature) skygrid, PiecewiseExponentialCoalescentGridModel (known C08 crash), BDSK removal probability with more "
-    "than one epoch (known C09 crash), batched parameters (C10) are not generated",
+    "BDSK removal probability with more than one epoch (known C09 crash) and batched parameters (C10) are not generated",
 ]
 
 EPS = 2.220446049250313e-16
@@ -416,6 +432,19 @@ class Engine:
         out = []
         if dom == "fixed" or k == 0:
             return out
+        if dom == "sym":
+            # symmetric positive definite matrix (covariance / precision): only symmetric perturbations stay in the domain
+            m = int(round(math.sqrt(k)))
+            pairs = sorted({tuple(sorted((cyc(ex["picks"], j) % m, (cyc(ex["picks"], j) // m) % m))) for j in range(cap)})
+            for a, b in pairs:
+                dd = np.zeros((m, m))
+                dd[a, b] = dd[b, a] = 1.0
+                out.append(("s%d,%d" % (a, b), dd.reshape(-1)))
+            w = np.array([[cyc(ex["dir"], a * m + b) for b in range(m)] for a in range(m)])
+            w = w + w.T
+            if np.max(np.abs(w)) > 0:
+                out.append(("dense", (w / np.max(np.abs(w))).reshape(-1)))
+            return out
         if dom == "simplex":
             if k < 2:
                 return out
@@ -450,6 +479,9 @@ class Engine:
         """largest step along d: relative to the parameter, a factor 4 inside the domain"""
         dom = "real" if inf["layers"] else inf["domain"]
         nz = np.nonzero(d)[0]
+        if dom == "sym":
+            m = int(round(math.sqrt(x.size)))
+            return 5e-3 * float(np.min(np.linalg.eigvalsh(x.reshape(m, m)))) / float(np.max(np.abs(d)))
         if dom == "real":
             return 1e-2 * max(1.0, float(np.max(np.abs(x[nz])))) / float(np.max(np.abs(d)))
         h = math.inf
@@ -928,6 +960,8 @@ def coal_cases(draw):
     c["calendar"] = draw(st.booleans())
     c["kind"] = draw(st.sampled_from(TREE_KINDS))
     c["grid_param"] = draw(st.booleans())
+    if c["p"]["model"] == "skygrid" and draw(st.integers(0, 3)) == 0:
+        c["temperature"] = draw(logu(0.02, 1.0))  # the soft-sorted skygrid
     if c["p"]["model"] == "exponential" and draw(st.booleans()):
         # slow growth / decline: a valid interior point next to the removable singularity of (exp(g t1) - exp(g t0)) / g
         c["p"]["growth"] = [draw(st.sampled_from([-1.0, 1.0])) * draw(logu(SMALL_GROWTH[0], SMALL_GROWTH[1]))]
@@ -989,6 +1023,10 @@ def coal_specs(c):
             spec["grid"] = p["grid"]
     if "cutoff" in p:
         spec["cutoff"] = p["cutoff"]
+    if c.get("temperature") and p["model"] == "skygrid":
+        spec["temperature"] = c["temperature"]
+        for i in infos:
+            i["owner"] = cls + "[soft]"
     if c["route"] == "times":
         times = [g["s"][i] for i in c["perm_s"]] + [g["c"][i] for i in c["perm_c"]]
         events = [1] * n + [0] * (n - 1)
@@ -1024,7 +1062,7 @@ def coal_events(dic, c):
 
 def coal_tags(c):
     p = c["p"]
-    return {"cls": c08.CLS[p["model"]], "route": c["route"], "tree": c["kind"] if c["route"] == "tree" else "none",
+    return {"cls": c08.CLS[p["model"]], "soft": bool(c.get("temperature") and p["model"] == "skygrid"), "route": c["route"], "tree": c["kind"] if c["route"] == "tree" else "none",
             "equal_adjacent": len(p["theta"]) > 1 and any(a == b for a, b in zip(p["theta"][:-1], p["theta"][1:]))}
 
 
@@ -1037,7 +1075,7 @@ def body_coal(c0):
     dic = build_all(specs)
     eng = Engine(res, dic, dic["coal"], infos, c["ex"], coal_events(dic, c), tags)
     p = c["p"]
-    eng.lab("model=" + p["model"])
+    eng.lab("model=" + p["model"] + ("[soft]" if c.get("temperature") and p["model"] == "skygrid" else ""))
     eng.lab("route=" + (c["route"] if c["route"] == "times" else "tree/" + c["kind"]))
     eng.lab("order=" + c["ex"]["order"])
     if tags["equal_adjacent"]:
@@ -1338,11 +1376,17 @@ def body_gmrf(c):
 # =========================================================================== CTMC scale, tree priors
 @st.composite
 def prior_cases(draw):
-    what = draw(st.sampled_from(["ctmc_time", "ctmc_time", "ctmc_unrooted", "gamma_dirichlet", "gamma_dirichlet"]))
+    what = draw(st.sampled_from(["ctmc_time", "ctmc_time", "ctmc_unrooted", "gamma_dirichlet", "gamma_dirichlet", "poisson", "poisson"]))
     c = {"what": what, "ex": draw(extras())}
-    if what == "ctmc_time":
+    if what in ("ctmc_time", "poisson"):
         c["g"] = draw(gc.genealogies(2, 10))
         c["kind"] = draw(st.sampled_from(TREE_KINDS))
+        if what == "poisson":
+            n = c["g"]["n"]
+            c["clock"] = draw(st.sampled_from(["strict", "simple"]))
+            c["rates"] = [draw(logu(1e-2, 10.0)) for _ in range(2 * n - 2 if c["clock"] == "simple" else 1)]
+            c["counts"] = [draw(st.integers(0, 6)) for _ in range(2 * n - 2)]
+            return c
     else:
         c["topo"] = draw(topology(3 if what == "ctmc_unrooted" else 3, 9))
         n = len(c["topo"]["perm"])
@@ -1367,7 +1411,7 @@ def unrooted_specs(c):
 def body_priors(c):
     ex = c["ex"]
     what = c["what"]
-    if what == "ctmc_time":
+    if what in ("ctmc_time", "poisson"):
         g = prepare_genealogy(c["g"], ex["sep"])
         topo, h = gc_topo(g)
         specs, infos = tree_specs(topo, g["samp"], h, c["kind"])
@@ -1375,7 +1419,16 @@ def body_priors(c):
     else:
         specs, infos = unrooted_specs(c)
         events_needed = False
-    if what.startswith("ctmc"):
+    if what == "poisson":
+        cls = "PoissonTreeLikelihood"
+        if c["clock"] == "strict":
+            clock = {"id": "clock", "type": "StrictClockModel", "tree_model": "tree", "rate": tt.P("rate", c["rates"])}
+            infos.append(info("rate", "StrictClockModel", "rate", "pos"))
+        else:
+            clock = {"id": "clock", "type": "SimpleClockModel", "tree_model": "tree", "rate": tt.P("clock.rates", c["rates"])}
+            infos.append(info("clock.rates", "SimpleClockModel", "rates", "pos"))
+        specs.append({"id": "target", "type": cls, "tree_model": "tree", "branch_model": clock, "edge_lengths": c["counts"]})
+    elif what.startswith("ctmc"):
         cls = "CTMCScale"
         specs.append({"id": "target", "type": cls, "x": tt.P("rate", [c["rate"]]), "tree_model": "tree"})
         infos.append(info("rate", cls, "x", "pos"))
@@ -1395,6 +1448,171 @@ def body_priors(c):
     eng.lab("tree=" + tags["tree"])
     eng.lab("order=" + ex["order"])
     eng.run((cls, tags["tree"], rnd({k: v for k, v in c.items() if k != "ex"}), ex["order"]))
+    return res
+
+
+# =========================================================================== distribution models
+DIST_MENU = [
+    # (class path, domain of x, [(parameter, domain)])
+    ("torchtree.distributions.log_normal.LogNormal", "pos", [("mean", "pos"), ("scale", "pos")]),
+    ("torchtree.distributions.log_normal.LogNormal", "pos", [("mean", "pos"), ("stdev", "pos")]),
+    ("torchtree.distributions.normal.Normal", "real", [("loc", "real"), ("precision", "pos")]),
+    ("torchtree.distributions.normal.Normal", "real", [("loc", "real"), ("scale", "pos")]),
+    ("torchtree.distributions.inverse_gamma.InverseGamma", "pos", [("concentration", "pos"), ("rate", "pos")]),
+    ("torchtree.distributions.one_on_x.OneOnX", "pos", []),
+    ("torch.distributions.Gamma", "pos", [("concentration", "pos"), ("rate", "pos")]),
+    ("torch.distributions.Normal", "real", [("loc", "real"), ("scale", "pos")]),
+    ("torch.distributions.LogNormal", "pos", [("loc", "real"), ("scale", "pos")]),
+    ("torch.distributions.Exponential", "pos", [("rate", "pos")]),
+    ("torch.distributions.Beta", "unit", [("concentration1", "pos"), ("concentration0", "pos")]),
+    ("torch.distributions.Dirichlet", "simplex", [("concentration", "posk")]),
+    ("torch.distributions.Cauchy", "real", [("loc", "real"), ("scale", "pos")]),
+    ("torch.distributions.Weibull", "pos", [("scale", "pos"), ("concentration", "pos")]),
+    ("torch.distributions.StudentT", "real", [("df", "pos"), ("loc", "real"), ("scale", "pos")]),
+]
+
+
+def _vals(draw, dom, k):
+    if dom == "pos":
+        return [draw(logu(0.05, 20.0)) for _ in range(k)]
+    if dom == "unit":
+        return [draw(fl(0.02, 0.98)) for _ in range(k)]
+    if dom == "simplex":
+        return draw(simplex(k))
+    return [draw(fl(-3.0, 3.0)) for _ in range(k)]
+
+
+@st.composite
+def dist_cases(draw):
+    what = draw(st.sampled_from(["distribution", "distribution", "bridge", "scale_mixture", "mvn", "det_normal"]))
+    c = {"what": what, "ex": draw(extras()), "torch_seed": draw(st.integers(0, 2 ** 31 - 1))}
+    k = draw(st.integers(1, 5))
+    c["k"] = k
+    if what == "distribution":
+        j = draw(st.integers(0, len(DIST_MENU) - 1))
+        path, xdom, pars = DIST_MENU[j]
+        if xdom == "simplex":
+            k = c["k"] = max(k, 2)
+        c["menu"] = j
+        c["x"] = _vals(draw, xdom, k)
+        c["split"] = bool(k >= 2 and xdom != "simplex" and draw(st.booleans()))
+        c["par"] = {name: _vals(draw, "pos" if dom == "posk" else dom, k if (dom == "posk" or draw(st.booleans())) else 1) for name, dom in pars}
+    elif what == "bridge":
+        c["form"] = draw(st.sampled_from(["alpha", "local", "local_slab_number"]))
+        c["x"] = [draw(st.sampled_from([-1.0, 1.0])) * draw(logu(0.05, 5.0)) for _ in range(k)]
+        c["scale"] = draw(logu(0.05, 20.0))
+        c["alpha"] = draw(logu(0.1, 4.0))
+        c["local"] = [draw(logu(0.05, 20.0)) for _ in range(k)]
+        c["slab"] = draw(logu(0.05, 20.0))
+    elif what == "scale_mixture":
+        c["x"] = [draw(fl(-3.0, 3.0)) for _ in range(k)]
+        c["loc"] = draw(fl(-2.0, 2.0))
+        c["loc_as"] = draw(st.sampled_from(["number", "param"]))
+        c["scale"] = draw(logu(0.05, 20.0))
+        c["local"] = [draw(logu(0.05, 20.0)) for _ in range(k)]
+        c["slab"] = draw(st.one_of(st.none(), logu(0.05, 20.0)))
+    elif what == "mvn":
+        c["x"] = [draw(fl(-3.0, 3.0)) for _ in range(k)]
+        c["loc"] = [draw(fl(-2.0, 2.0)) for _ in range(k)]
+        c["split"] = bool(k >= 2 and draw(st.booleans()))
+        c["par"] = draw(st.sampled_from(["scale_tril", "covariance_matrix", "precision_matrix"]))
+        c["L"] = [[(draw(logu(0.5, 2.0)) if a == b else (draw(fl(-1.0, 1.0)) if b < a else 0.0)) for b in range(k)] for a in range(k)]
+    else:
+        c["x"] = [draw(fl(-3.0, 3.0)) for _ in range(k)]
+        c["loc"] = [draw(fl(-2.0, 2.0)) for _ in range(k)]
+        c["scale"] = [draw(logu(0.05, 20.0)) for _ in range(k)]
+    return c
+
+
+def body_dist(c):
+    torch.manual_seed(c["torch_seed"])
+    ex = c["ex"]
+    what = c["what"]
+    k = c["k"]
+    infos = []
+    events = None
+
+    def xspec(owner, dom, split=False, nt=False):
+        if split:
+            infos.extend([info("x.a", owner, "x", dom), info("x.b", owner, "x", dom)])
+            return [tt.P("x.a", c["x"][:1]), tt.P("x.b", c["x"][1:])]
+        infos.append(info("x", owner, "x", dom))
+        return tt.P("x", c["x"])
+
+    if what == "distribution":
+        path, xdom, pars = DIST_MENU[c["menu"]]
+        short = path.rsplit(".", 1)[1]
+        owner = "Distribution[%s%s]" % ("torchtree." if path.startswith("torchtree") else "", short)
+        spec = {"id": "target", "type": "Distribution", "distribution": path, "x": xspec(owner, xdom, c["split"])}
+        if pars:
+            spec["parameters"] = {}
+            for name, dom in pars:
+                spec["parameters"][name] = tt.P("par." + name, c["par"][name])
+                infos.append(info("par." + name, owner, name, "pos" if dom == "posk" else dom))
+        variant = "+".join(n for n, _ in pars) or "none"
+    elif what == "bridge":
+        owner = "BayesianBridge"
+        spec = {"id": "target", "type": owner, "x": xspec(owner, "real"), "scale": tt.P("bb.scale", [c["scale"]])}
+        infos.append(info("bb.scale", owner, "scale", "pos"))
+        if c["form"] == "alpha":
+            spec["alpha"] = tt.P("bb.alpha", [c["alpha"]])
+            infos.append(info("bb.alpha", owner, "alpha", "pos"))
+
+            # |x|^alpha has a kink at 0: every x_i keeps its sign
+            events = lambda: [([v, 0.0], [False, True], 0.45) for v in arr(dic["x"].tensor).reshape(-1).tolist()]  # noqa: E731
+        else:
+            spec["local_scale"] = tt.P("bb.local", c["local"])
+            infos.append(info("bb.local", owner, "local_scale", "pos"))
+            if c["form"] == "local":
+                spec["slab"] = tt.P("bb.slab", [c["slab"]])
+                infos.append(info("bb.slab", owner, "slab", "pos"))
+            else:
+                spec["slab"] = c["slab"]
+        variant = c["form"]
+    elif what == "scale_mixture":
+        owner = "ScaleMixtureNormal"
+        spec = {"id": "target", "type": owner, "x": xspec(owner, "real"), "global_scale": tt.P("sm.global", [c["scale"]]),
+                "local_scale": tt.P("sm.local", c["local"])}
+        infos += [info("sm.global", owner, "global_scale", "pos"), info("sm.local", owner, "local_scale", "pos")]
+        if c["loc_as"] == "param":
+            spec["loc"] = tt.P("sm.loc", [c["loc"]])
+            infos.append(info("sm.loc", owner, "loc", "real"))
+        else:
+            spec["loc"] = c["loc"]
+        if c["slab"] is not None:
+            spec["slab"] = tt.P("sm.slab", [c["slab"]])
+            infos.append(info("sm.slab", owner, "slab", "pos"))
+        variant = "loc:%s%s" % (c["loc_as"], "+slab" if c["slab"] is not None else "")
+    elif what == "mvn":
+        owner = "MultivariateNormal"
+        L = np.array(c["L"], dtype=float)
+        par = c["par"]
+        if par == "scale_tril":
+            M = L
+            minfo = info("mvn.matrix", owner, par, "real", skip=[a * k + b for a in range(k) for b in range(k) if b > a])
+        else:
+            M = L @ L.T + 0.5 * np.eye(k)
+            minfo = info("mvn.matrix", owner, par, "sym")
+        minfo["nowrap"] = True
+        infos.append(info("mvn.loc", owner, "loc", "real"))
+        infos.append(minfo)
+        spec = {"id": "target", "type": owner, "x": xspec(owner, "real", c["split"]), "parameters": {"loc": tt.P("mvn.loc", c["loc"]), par: tt.P("mvn.matrix", M.tolist())}}
+        variant = par
+    else:
+        owner = "DeterministicNormal"
+        spec = {"id": "target", "type": owner, "x": xspec(owner, "real"), "loc": tt.P("dn.loc", c["loc"]), "scale": tt.P("dn.scale", c["scale"]), "shape": []}
+        infos += [info("dn.loc", owner, "loc", "real"), info("dn.scale", owner, "scale", "pos")]
+        variant = "plain"
+    for i in infos:
+        i["nt"] = False  # element-wise formulas and library calls: no indexed / masked / in-place operation on the way
+    tags = {"cls": owner, "variant": variant}
+    res = Res(nontrivial=False, tags=tags)
+    specs, _ = apply_plan([spec], infos, ex)
+    dic = build_all(specs)
+    eng = Engine(res, dic, dic["target"], infos, ex, events, tags)
+    eng.lab("target=%s/%s" % (owner, variant))
+    eng.lab("order=" + ex["order"])
+    eng.run((owner, variant, rnd({a: b for a, b in c.items() if a not in ("ex", "torch_seed")}), ex["order"]))
     return res
 
 
@@ -1658,6 +1876,7 @@ def subchecks(tier):
         Sub("skyline", body_bdsk, strategy=bdsk_cases, quick=200, thorough=5000, pretags=_pre(lambda c: "BDSKModel")),
         Sub("gmrf", body_gmrf, strategy=gmrf_cases, quick=300, thorough=8000, pretags=_pre(lambda c: c["what"])),
         Sub("priors", body_priors, strategy=prior_cases, quick=240, thorough=6000, pretags=_pre(lambda c: c["what"])),
+        Sub("distributions", body_dist, strategy=dist_cases, quick=300, thorough=8000, pretags=_pre(lambda c: c["what"])),
         Sub("jacobian", body_jacobian, strategy=jacobian_cases, quick=300, thorough=8000, pretags=_pre(lambda c: c["what"])),
         Sub("joint", body_joint, strategy=joint_cases, quick=170, thorough=5000, pretags=lambda c: dict(like_pretags(c), cls="JointDistributionModel")),
         Sub("degenerate_start", body_degenerate, enumerate=degenerate_cases, exhaustive=True, pretags=degenerate_tags),
